@@ -53,20 +53,65 @@ dry_returns = bool(re.search(r"\breturn\s+Ok\s*\(", dry_block))
 dry_writes = bool(re.search(r"self\s*\.\s*write\s*\(|\.\s*journal\s*\(|\.\s*put\s*\(|record_version", dry_block))
 dry_first = not re.search(r"\.\s*await", commit[:dry_start])  # nothing awaited before the branch
 
-markers = [
-    ("governance", r"self\s*\.\s*propagate_governance\s*\(\s*\)\s*\.\s*await", "self.propagate_governance().await?"),
-    ("refClosure", r"self\s*\.\s*check_reference_closure\s*\(\s*\)\s*\.\s*await", "self.check_reference_closure().await?"),
-    ("keyIdentity", r"self\s*\.\s*check_concept_key_identity\s*\(\s*\)\s*\.\s*await", "self.check_concept_key_identity().await?"),
+def block_after(text, start):
+    """text of the brace block that opens at or after `start`"""
+    i = text.index("{", start)
+    depth, j = 0, i
+    while j < len(text):
+        if text[j] == "{":
+            depth += 1
+        elif text[j] == "}":
+            depth -= 1
+            if depth == 0:
+                return text[i + 1:j]
+        j += 1
+    die(f"{T}: unbalanced braces")
+
+
+CHECKS = [
+    ("governance", r"self\s*\.\s*propagate_governance\s*\(\s*\)\s*\.\s*await", "self.propagate_governance().await"),
+    ("refClosure", r"self\s*\.\s*check_reference_closure\s*\(\s*\)\s*\.\s*await", "self.check_reference_closure().await"),
+    ("keyIdentity", r"self\s*\.\s*check_concept_key_identity\s*\(\s*\)\s*\.\s*await", "self.check_concept_key_identity().await"),
+]
+LATER = [
     ("writeLoop", r"for\s*\(\s*id\s*,\s*staged\s*\)\s*in\s+std\s*::\s*mem\s*::\s*take\s*\(\s*&mut\s+self\s*\.\s*staged\s*\)", "for (id, staged) in std::mem::take(&mut self.staged)"),
     ("discardUnstaged", r"self\s*\.\s*discard_unstaged_shells\s*\(", "self.discard_unstaged_shells("),
     ("journal", r"\.\s*journal\s*\(", ".journal("),
     ("flush", r"self\s*\.\s*store\s*\.\s*flush\s*\(", "self.store.flush("),
 ]
-pos = [(need_one(rest, pat, what), name) for name, pat, what in markers]
+markers = CHECKS + LATER
+# Two shapes are understood: the three checks inline in `commit` (each `?`-propagated: a failing
+# check returns at once, nothing is cleaned up), or gathered in `check_before_commit()` whose
+# failure arm may discard the shells before returning the error.
+call = list(re.finditer(r"self\s*\.\s*check_before_commit\s*\(\s*\)\s*\.\s*await", rest))
+if len(call) > 1:
+    die(f"{T}: check_before_commit is called {len(call)} times in commit")
+if call:
+    cb = fn_body(tx, "check_before_commit")
+    cpos = sorted((need_one(cb, pat, what), name) for name, pat, what in CHECKS)
+    for name, pat, what in CHECKS:
+        if re.search(pat, rest):
+            die(f"{T}: `{what}` appears both in commit and in check_before_commit")
+    m = re.search(r"if\s+let\s+Err\s*\(\s*\w+\s*\)\s*=\s*self\s*\.\s*check_before_commit\s*\(\s*\)\s*\.\s*await\s*\{", rest)
+    check_failure_discards = False
+    if m:
+        arm = block_after(rest, m.start())
+        pd = re.search(r"self\s*\.\s*discard_shells\s*\(\s*\)\s*\.\s*await", arm)
+        pr = re.search(r"\breturn\s+Err\s*\(", arm)
+        if not pr:
+            die(f"{T}: the failure arm of check_before_commit does not return the error")
+        check_failure_discards = bool(pd and pd.start() < pr.start())
+    elif not re.search(r"self\s*\.\s*check_before_commit\s*\(\s*\)\s*\.\s*await\s*\?", rest):
+        die(f"{T}: the result of check_before_commit is neither matched nor propagated")
+    pos = [(call[0].start() + k, name) for k, (_, name) in enumerate(cpos)]
+else:
+    check_failure_discards = False
+    pos = [(need_one(rest, pat, what), name) for name, pat, what in CHECKS]
+pos += [(need_one(rest, pat, what), name) for name, pat, what in LATER]
 order = [name for _, name in sorted(pos)]
 
 # the write loop body
-lm = re.search(markers[3][1], rest)
+lm = re.search(LATER[0][1], rest)
 li = rest.index("{", lm.end())
 depth, j = 0, li
 while j < len(rest):
@@ -136,8 +181,6 @@ if m:
     pa = re.search(r"tx\s*\.\s*abort\s*\(\s*\)\s*\.\s*await", arm)
     pr = re.search(r"\breturn\b", arm)
     abort_on_plan_error = bool(pa and pr and pa.start() < pr.start())
-after_commit = ex[p_commit:]
-commit_error_cleans = bool(re.search(r"abort|discard|sweep_pending", after_commit))
 
 pl = fn_body(kml, "plan")
 p_decl = need_one(pl, r"clauses\s*::\s*declare_handles\s*\(", "clauses::declare_handles(")
@@ -162,6 +205,25 @@ for k in ("CreateConcept", "UpsertConcept", "EnsureProposition", "_"):
         die(f"{T}: plan_pass has no arm for {k}")
 dh = fn_body(cl, "declare_handles")
 declared = sorted(set(re.findall(r"MutationClause\s*::\s*(\w+)\s*\(\s*c\s*\)\s*=>\s*\(\s*Some", dh)))
+
+# ENSURE PROPOSITION resolves through the store, then through the rows this transaction staged for
+# creation, and only then mints
+en = fn_body(cl, "ensure_proposition")
+p_find = need_one(en, r"store\s*\.\s*find_proposition\s*\(", "store.find_proposition(")
+p_mint = need_one(en, r"tx\s*\.\s*mint\s*\(", "tx.mint(")
+stg = list(re.finditer(r"tx\s*\.\s*staged_new_proposition\s*\(", en))
+if len(stg) > 1:
+    die(f"{T}: ensure_proposition consults staged_new_proposition {len(stg)} times")
+ensure_consults_staged = False
+if stg:
+    if not (p_find < stg[0].start() < p_mint):
+        die(f"{T}: ensure_proposition must look in the store, then at the staged rows, then mint")
+    arm = block_after(en, stg[0].start())
+    snp = fn_body(tx, "staged_new_proposition")
+    rule = bool(re.search(r"Element\s*::\s*Proposition\s*\(\s*row\s*\)\s*if\s+staged\s*\.\s*is_new\s*&&\s*row\s*\.\s*tuple_key\s*==\s*tuple_key", snp))
+    ensure_consults_staged = bool(re.search(r"\breturn\s+Ok\s*\(\s*\(\s*\)\s*\)", arm)) and not re.search(r"stage_new|tx\s*\.\s*mint", arm) and rule
+if not (p_find < p_mint):
+    die(f"{T}: ensure_proposition mints before it looks the tuple up")
 
 # ---------------------------------------------------------------- nexus.rs
 nx = strip_rust_comments(read_source(repo, "rs/anda_cognitive_nexus/src/nexus.rs"))
@@ -254,10 +316,14 @@ def shellIsPending : Bool := {b(shell_pending)}
 def markChangedRule : Bool := {b(mark_ok)}
 
 /-- `kml::execute`: begin → plan → commit; `tx.abort()` precedes the return of a planning error;
-nothing after `tx.commit(` cleans up when commit itself fails -/
+-/
 def executeOrder : Bool := {b(exec_order_ok)}
 def abortOnPlanError : Bool := {b(abort_on_plan_error)}
-def commitErrorCleansUp : Bool := {b(commit_error_cleans)}
+/-- a failing pre-commit check discards the statement's shells before the error is returned -/
+def checkFailureDiscardsShells : Bool := {b(check_failure_discards)}
+/-- `ensure_proposition`: store lookup, then the rows staged for creation (`is_new` Propositions with
+the same `tuple_key`: bind and return), then mint -/
+def ensureConsultsStaged : Bool := {b(ensure_consults_staged)}
 /-- `kml::plan`: every handle is declared before the first pass; a pass skips other passes' clauses -/
 def declareBeforeApply : Bool := {b(declare_first)}
 def passFilter : Bool := {b(pass_filter)}
@@ -305,6 +371,8 @@ theorem gen_write_loop :
     (loopSkipsUnchanged && versionRuleOncePerElement && loopWritePropagatesError && statusRule &&
      writePutsBeforeVersionLog && writePromotesPending && writeStampsVersionAndSeq && markChangedRule) = true := by decide
 theorem gen_abort : (executeOrder && abortOnPlanError && abortDiscardsShells && shellIsPending) = true := by decide
+theorem gen_check_failure_discards : checkFailureDiscardsShells = true := by decide
+theorem gen_ensure_consults_staged : ensureConsultsStaged = true := by decide
 theorem gen_plan :
     (declareBeforeApply && passFilter) = true ∧ planPasses = 3 ∧ passCreateConcept = 0 ∧ passUpsertConcept = 1 ∧
     passEnsureProposition = 1 ∧ passOther = 2 ∧
